@@ -127,6 +127,7 @@ def run(tier, seed):
             from vizier._src.service import constants as _const
             old_ep = vizier_client.environment_variables.server_endpoint
             vizier_client.environment_variables.server_endpoint = server.endpoint if server is not None else _const.NO_ENDPOINT
+            vizier_client.environment_variables.servicer_kwargs['database_url'] = _const.SQL_MEMORY_URL   # never a file under /repo
             try:
               if op[1] == 'name':
                 clients.Study.from_resource_name('owners/o1/studies/never_created_%d' % op[2])
